@@ -77,6 +77,8 @@ def main(tier, seed):
             return flt
         plans = [('counts <= 2', 2, True, 1, 12 if q else 1, None), ('counts <= 3', 3, False, 1, 30 if q else 3, None),
                  ('larger counts (n1 5, n2 8, n3 6, lists up to 4), LP only', 4, False, 1, 45 if q else 4, {'n1': {5}, 'n2': {8}, 'n3': {6}})]
+        # ten first-side agents (two-digit numbers), one-entry lists so that the admissible matchings stay enumerable
+        plans.append(('ten first-side agents, one-entry lists, LP only', 1, False, 1, 6 if q else 1, {'n1': {10}, 'n2': {3}, 'n3': {2}}))
         if not q:
             plans.append(('counts <= 4', 4, False, 1, 12, None))
         for label, maxn, rich, nseeds, every, counts in plans:
